@@ -2,13 +2,22 @@
 // Memory safety itself is the engine's job: every load/store of every path is a checked access (null, unmapped, out of bounds,
 // freed, dead stack), natively AddressSanitizer + UBSan on replay.
 #include "zoo.h"
+#include "categories.h"       // generated from include/ipr/node-category on every run
 #include <type_traits>
 namespace {
+   template<class I> struct category_of;
+#define VP_CATOF(K) template<> struct category_of<ipr::K> { static constexpr ipr::Category_code value = ipr::Category_code::K; };
+   VP_CATEGORIES(VP_CATOF)
+#undef VP_CATOF
    template<class T> struct Peek : ipr::Sequence<T> { using ipr::Sequence<T>::get; };
    template<class T> const T& at(const ipr::Sequence<T>& s, std::size_t i) { return (s.*&Peek<T>::get)(i); }
 
    template<class T> void deref(const T& x) {
-      if constexpr (std::is_base_of_v<ipr::Node, T>) { volatile auto c = x.category; (void)c; }
+      if constexpr (std::is_base_of_v<ipr::Node, T>) {
+         volatile auto c = x.category; (void)c;
+         // a result declared as a leaf interface class is an object of that class (a reference to something else is not a valid result)
+         if constexpr (requires { category_of<T>::value; }) vp_assert(x.category == category_of<T>::value, 7);
+      }
       else { volatile const void* p = &x; (void)p; }
    }
    template<class T> struct is_optional : std::false_type { };
@@ -163,6 +172,9 @@ extern "C" void h_partial_decls(void) {
    impl::Warehouse<ipr::Type> w2; w2.push_back(lx.typename_type());
    const ipr::Forall& fa = lx.get_forall(lx.get_product(w2), lx.class_type());
    const ipr::Name& nm = *w->N[0];
+   // the name may already be shared by a declaration of another kind (an ordinary function or a variable of another type)
+   unsigned shared = vp_pick(3);
+   if (shared == 1) w->reg->declare_var(nm, lx.double_type()); else if (shared == 2) w->reg->declare_fun(nm, lx.get_function(lx.get_product(w1), lx.double_type()));
    Sweep v;
    auto fill = [&](auto* first, auto* second, auto set_own) {
       using D = std::remove_pointer_t<decltype(first)>;
